@@ -44,8 +44,15 @@ def run(ctx):
         ctx.saw_fn(tb.name)
         vals = [render(t) for _, _, t in success_values(tb)]
         want = "Validity::new(cmp::max(self.not_before, other.not_before), cmp::min(self.not_after, other.not_after))"
-        alt = want.replace("cmp::max", "Ord::max").replace("cmp::min", "Ord::min")
-        ctx.ob("R-FLOW", "Validity::trim", vals in ([want], [alt]),
+
+        def canon_trim(v):
+            # max/min as free functions or methods, in either operand order; the constructor or the struct literal
+            v = v.replace("Ord::max", "cmp::max").replace("Ord::min", "cmp::min")
+            v = re.sub(r"^x509::Validity::Validity\{not_before: (.*), not_after: (.*)\}$", r"Validity::new(\1, \2)", v)
+            v = v.replace("cmp::max(other.not_before, self.not_before)", "cmp::max(self.not_before, other.not_before)")
+            v = v.replace("cmp::min(other.not_after, self.not_after)", "cmp::min(self.not_after, other.not_after)")
+            return v
+        ctx.ob("R-FLOW", "Validity::trim", [canon_trim(v) for v in vals] == [want],
                "Validity::trim = (max of the not-befores, min of the not-afters)", where=tb.loc, detail=vals)
     nb = f.body(X + "Validity::new")
     if nb is not None:
@@ -143,6 +150,14 @@ def run(ctx):
                 adt = (r, live)
             if re.search(r"and_hms_opt\(.*parts\.3, parts\.4, parts\.5\)$", r):
                 okt = live == [1]
+        if not okt:
+            # the same fact without a match: `and_hms_opt(..).map(Time).ok_or_else(..)` is Ok exactly for Some
+            from engine.rules import peel_variant_keeping
+            sv = [strip_deep(t) for _, _, t in success_values(fp, oc)]
+            okt = bool(sv) and all(
+                t[0] == "call" and (t[3] or {}).get("name") in ("ok_or", "ok_or_else") and t[2] and
+                re.search(r"and_hms_opt\(.*parts\.3, parts\.4, parts\.5\)$", render(peel_variant_keeping(t[2][0]))) is not None
+                for t in sv)
         ctx.ob("R-GRD", "Time::from_parts:real-date", okd,
                "from_parts succeeds for exactly one outcome of Utc.ymd_opt(y, m, d) (the unambiguous date)", where=fp.loc, detail=adt)
         ctx.ob("R-GRD", "Time::from_parts:real-time", okt,
